@@ -37,7 +37,7 @@ PASS_THROUGH = [
     r"Path::new", r"::join$", r"::parent$", r"::as_path$", r"::as_os_str$", r"::path$", r"::into_path$",
     r"::as_span$", r"::into_inner$", r"::start_pos$", r"::end_pos$", r"::last_mut$", r"::as_rule$",
     r"core::fmt::rt::Argument::<'_>::new_", r"::to_lowercase$", r"::to_uppercase$", r"::to_ascii_lowercase$",
-    r"::map_or$", r"::map$", r"::and_then$", r"::ok_or$", r"::unwrap_or_else$",
+    r"::map_or$", r"::map$", r"::and_then$", r"::ok_or$", r"::unwrap_or_else$", r"::collect$", r"PathBuf::from$", r"::map_err$", r"::then_some$",
 ]
 _PT = [re.compile(p) for p in PASS_THROUGH]
 
